@@ -6,8 +6,9 @@ import json, os, re, shutil, glob, sys
 out_root = "/verif/seeded"
 os.makedirs(out_root, exist_ok=True)
 rows = []
-for d in sorted(glob.glob("/tmp/seed_out/C??/[0-9]")):
-    pid = os.path.basename(os.path.dirname(d)); k = os.path.basename(d)
+dirs = [(d, "") for d in sorted(glob.glob("/tmp/seed_out/C??/[0-9]"))] + [(d, "r2") for d in sorted(glob.glob("/tmp/seed_out2/C??/[0-9]"))]
+for d, rnd in dirs:
+    pid = os.path.basename(os.path.dirname(d)); k = rnd + os.path.basename(d)
     ev = os.path.join(d, "eval.txt")
     if not (os.path.exists(ev) and os.path.exists(os.path.join(d, "patch.diff"))):
         continue
